@@ -17,7 +17,7 @@ from .common import set_interrupts, COMPONENTS_BASE, run_sim, new_sim, finish_ou
 
 PID = "C07"
 LEVEL = "exploration"
-BUDGET = {"quick": 30000, "thorough": 600000}
+BUDGET = {"quick": 30000, "thorough": 400000}
 RULE = (
     "each run draws an underlying async iterator (async generator / class-based with aclose / without aclose / "
     "with asend+athrow) of 0..8 items with suspensions and a history of <=12 ops over {next borrowed, next "
